@@ -10,3 +10,7 @@ package midi
 //@ func ControlChangeEvent
 //@   ensures [C05,C07,C13] len(result) == 3 && result[0] == 0xB0 | channel && result[1] == function && result[2] == value
 //@   modifies nothing
+
+//@ func PitchBendEvent
+//@   ensures [C05,C06] len(result) == 3 && result[0] == 0xE0 | channel && result[1] <= 127 && result[2] <= 127
+//@   modifies nothing
